@@ -14,6 +14,7 @@ cat <<'J'
   "imports":{"github.com/goplus/llgo/runtime/internal/clite/pthread/sync":"verif/sim/psync",
              "github.com/goplus/llgo/runtime/internal/lib/sync/atomic":"verif/sim/satomic"},
   "glue":["glue/semart/glue.go.in"],
+  "resetfunc":"resetLiftedGlobals",
   "need":["semaAcquire","semaRelease","sync_runtime_notifyListAdd","sync_runtime_notifyListWait","sync_runtime_notifyListNotifyAll","sync_runtime_notifyListNotifyOne","notifyList"]},
  {"out":"lifted/atomicval","name":"atomicval",
   "files":["${REPO}/runtime/internal/lib/sync/atomic/value.go"],
